@@ -28,6 +28,19 @@ type HopMsg struct {
 	Session int
 }
 
+// HopTx is what the server saw of one MAIL transaction and how it answered.
+type HopTx struct {
+	N        int
+	From     string
+	MailErr  string
+	Rcpts    []string          // RCPT commands in order
+	RcptErr  map[string]string // address -> reply class ("" accepted, T, P, drop)
+	DataSeen bool
+	DataErr  string            // reply class for the whole DATA (SMTP) or transaction-level failure (LMTP)
+	Status   map[string]string // LMTP: address -> reply class of the per-recipient reply ("" = 250); only replies actually produced
+	Dropped  bool              // the connection was cut by the server during this transaction
+}
+
 type HopConfig struct {
 	Name       string
 	ListenIP   string // e.g. 127.0.0.1
@@ -41,10 +54,15 @@ type NextHop struct {
 	Cfg  HopConfig
 	Addr string
 
-	mu       sync.Mutex
-	script   map[string]string // "mail", "rcpt:<addr>", "rcpt", "data", "status:<addr>", "drop:<stage>" -> T | P | drop; "dropafter" -> number of per-recipient LMTP replies given before the connection is cut
-	Msgs     []HopMsg
-	Log      []string
+	mu     sync.Mutex
+	script map[string]string // "mail", "rcpt:<addr>", "rcpt", "data", "status:<addr>", "drop:<stage>" -> T | P | drop; "dropafter" -> number of per-recipient LMTP replies given before the connection is cut
+	Msgs   []HopMsg
+	Log    []string
+	// Plans, when set, scripts the n-th MAIL transaction seen by the server (in arrival order) with
+	// Plans[n]; transactions beyond the list are not scripted. It takes precedence over Script.
+	Plans    []map[string]string
+	ntx      int
+	TxLog    []HopTx
 	sessions int
 	srv      *smtp.Server
 	l        net.Listener
@@ -132,6 +150,37 @@ type hopSession struct {
 	conn *smtp.Conn
 	n    int
 	msg  *HopMsg
+	plan map[string]string
+	tx   *HopTx
+}
+
+func (s *hopSession) get(keys ...string) string {
+	if s.plan != nil {
+		for _, k := range keys {
+			if v, ok := s.plan[k]; ok {
+				return v
+			}
+		}
+		return ""
+	}
+	return s.h.get(keys...)
+}
+
+func (s *hopSession) txDone() {
+	// may be called from the connection's goroutine (Reset, Logout) and from the LMTP data goroutine
+	s.h.mu.Lock()
+	defer s.h.mu.Unlock()
+	if s.tx != nil {
+		s.h.TxLog = append(s.h.TxLog, *s.tx)
+		s.tx = nil
+	}
+}
+
+// Transactions returns what the server saw, one entry per MAIL command (finished or abandoned ones).
+func (h *NextHop) Transactions() []HopTx {
+	h.mu.Lock()
+	defer h.mu.Unlock()
+	return append([]HopTx(nil), h.TxLog...)
 }
 
 func (h *NextHop) NewSession(c *smtp.Conn) (smtp.Session, error) {
@@ -142,13 +191,16 @@ func (h *NextHop) NewSession(c *smtp.Conn) (smtp.Session, error) {
 	return &hopSession{h: h, conn: c, n: n}, nil
 }
 
-func (s *hopSession) AuthMechanisms() []string            { return nil }
-func (s *hopSession) Auth(string) (sasl.Server, error)    { return nil, errors.New("no auth") }
-func (s *hopSession) Reset()                              { s.msg = nil }
-func (s *hopSession) Logout() error                       { return nil }
+func (s *hopSession) AuthMechanisms() []string         { return nil }
+func (s *hopSession) Auth(string) (sasl.Server, error) { return nil, errors.New("no auth") }
+func (s *hopSession) Reset()                           { s.msg = nil; s.txDone() }
+func (s *hopSession) Logout() error                    { s.txDone(); return nil }
 
 func (s *hopSession) act(cls, what string) error {
 	if cls == "drop" {
+		if s.tx != nil {
+			s.tx.Dropped = true
+		}
 		s.conn.Conn().Close()
 		return &smtp.SMTPError{Code: 421, EnhancedCode: smtp.EnhancedCode{4, 4, 2}, Message: "dropping"}
 	}
@@ -159,7 +211,21 @@ func (s *hopSession) act(cls, what string) error {
 }
 
 func (s *hopSession) Mail(from string, opts *smtp.MailOptions) error {
-	if err := s.act(s.h.get("mail"), "MAIL"); err != nil {
+	s.txDone()
+	s.h.mu.Lock()
+	s.plan = nil
+	if s.h.Plans != nil {
+		s.plan = map[string]string{}
+		if s.h.ntx < len(s.h.Plans) && s.h.Plans[s.h.ntx] != nil {
+			s.plan = s.h.Plans[s.h.ntx]
+		}
+	}
+	s.tx = &HopTx{N: s.h.ntx, From: from, RcptErr: map[string]string{}, Status: map[string]string{}}
+	s.h.ntx++
+	s.h.mu.Unlock()
+	if err := s.act(s.get("mail"), "MAIL"); err != nil {
+		s.tx.MailErr = s.get("mail")
+		s.txDone()
 		return err
 	}
 	_, isTLS := s.conn.TLSConnectionState()
@@ -168,7 +234,13 @@ func (s *hopSession) Mail(from string, opts *smtp.MailOptions) error {
 }
 
 func (s *hopSession) Rcpt(to string, _ *smtp.RcptOptions) error {
-	if err := s.act(s.h.get("rcpt:"+to, "rcpt"), "RCPT"); err != nil {
+	if s.tx != nil {
+		s.tx.Rcpts = append(s.tx.Rcpts, to)
+	}
+	if err := s.act(s.get("rcpt:"+to, "rcpt"), "RCPT"); err != nil {
+		if s.tx != nil {
+			s.tx.RcptErr[to] = s.get("rcpt:"+to, "rcpt")
+		}
 		return err
 	}
 	if s.msg == nil {
@@ -183,29 +255,48 @@ func (s *hopSession) Data(r io.Reader) error {
 	if err != nil {
 		return err
 	}
-	if err := s.act(s.h.get("data"), "DATA"); err != nil {
+	if s.tx != nil {
+		s.tx.DataSeen = true
+	}
+	if err := s.act(s.get("data"), "DATA"); err != nil {
+		if s.tx != nil {
+			s.tx.DataErr = s.get("data")
+		}
+		s.txDone()
 		return err
 	}
 	s.msg.Data = b
 	s.h.mu.Lock()
 	s.h.Msgs = append(s.h.Msgs, *s.msg)
 	s.h.mu.Unlock()
+	s.txDone()
 	return nil
 }
 
 func (s *hopSession) LMTPData(r io.Reader, status smtp.StatusCollector) error {
+	s.h.mu.Lock()
+	tx := s.tx // the connection's goroutine may end the transaction (Logout) while this one still runs
+	s.h.mu.Unlock()
 	b, err := io.ReadAll(r)
 	if err != nil {
 		return err
 	}
-	if err := s.act(s.h.get("data"), "DATA"); err != nil {
+	if tx != nil {
+		tx.DataSeen = true
+	}
+	if err := s.act(s.get("data"), "DATA"); err != nil {
+		if tx != nil {
+			tx.DataErr = s.get("data")
+		}
+		s.txDone()
 		return err
 	}
+	defer s.txDone()
 	s.msg.Data = b
 	delivered := *s.msg
 	delivered.To = nil
 	dropAfter := -1
-	if v := s.h.get("dropafter"); v != "" {
+	if v := s.get("dropafter"); v != "" {
 		dropAfter, _ = strconv.Atoi(v)
 	}
 	for i, rc := range s.msg.To {
@@ -215,12 +306,21 @@ func (s *hopSession) LMTPData(r io.Reader, status smtp.StatusCollector) error {
 			s.h.mu.Lock()
 			s.h.Msgs = append(s.h.Msgs, delivered)
 			s.h.mu.Unlock()
+			if tx != nil {
+				tx.Dropped = true
+			}
 			s.conn.Conn().Close()
 			return &smtp.SMTPError{Code: 421, EnhancedCode: smtp.EnhancedCode{4, 4, 2}, Message: "dropping"}
 		}
-		if e := hopErr(s.h.get("status:"+rc, "status"), "delivery to "+rc); e != nil {
+		if e := hopErr(s.get("status:"+rc, "status"), "delivery to "+rc); e != nil {
+			if tx != nil {
+				tx.Status[rc] = s.get("status:"+rc, "status")
+			}
 			status.SetStatus(rc, e)
 			continue
+		}
+		if tx != nil {
+			tx.Status[rc] = ""
 		}
 		status.SetStatus(rc, nil)
 		delivered.To = append(delivered.To, rc)
